@@ -133,7 +133,7 @@ func checkC12(e *RunEnv) *CheckResult {
 		}
 		names := []string{"A", "Al Bo", "Al  Bo", "é ü", "O'N", "a>b", "x@y", strings.Repeat("N", 200)}
 		emails := []string{"a@b.co", "a.b+c-d_e@x-y.z9.org", "A9@a1.b2.info"}
-		messages := []string{"", "m", "a: b", "l1\nl2", "l1\n\nl3", "\nlead", "trail\n", "é", strings.Repeat("x", 4096), "tree deadbeef", "author x"}
+		messages := []string{"", "m", "a: b", "l1\nl2", "l1\n\nl3", "\nlead", "trail\n", "é", strings.Repeat("x", 4096), "tree deadbeef", "author x", "100% of %s %d", "50%"}
 		for _, off := range []int{-330, -45, 0, 345} {
 			env := fmt.Sprintf("TZ=VERIFTZ:%d", off)
 			for _, nm := range names {
